@@ -265,6 +265,8 @@ class Program:
             self.relocated += restore_constant_names({m.name: m.tree for m in self.modules.values()})
             from .relocate import restore_function_names
             self.relocated += restore_function_names({m.name: m.tree for m in self.modules.values()})
+            from .normalize import fold_none_defaults
+            fold_none_defaults({m.name: m.tree for m in self.modules.values()})
             from .normalize import simplify_assignments
             simplify_assignments({m.name: m.tree for m in self.modules.values()})
             from .normalize import drop_observability
